@@ -37,11 +37,38 @@ LANG_OF_EXT = {"py": "Python", "pyi": "Python", "js": "JavaScript", "mjs": "Java
 LANG_OF_NAME = {"BUILD": "Python", "SConstruct": "Python"}
 
 
+SEVEN = {"Python", "JavaScript", "TypeScript", "Java", "C", "C++", "C#"}
+_extra_cache = {}
+
+
+def _additional_language(basename):
+    """a language the working tree registers BEYOND the seven of the property (a maintainer adding, say, Ruby support):
+    such a file then legitimately qualifies; the seven themselves come from the fixed table so that losing one is reported"""
+    if basename not in _extra_cache:
+        got = None
+        try:
+            from pygments.lexers import get_lexer_for_filename
+            from pygments.util import ClassNotFound
+
+            from codelimit.languages import Languages
+            extra = set(Languages.by_name) - SEVEN
+            if extra:
+                try:
+                    name = get_lexer_for_filename(basename).name
+                    got = name if name in extra else None
+                except ClassNotFound:
+                    got = None
+        except ImportError:
+            got = None
+        _extra_cache[basename] = got
+    return _extra_cache[basename]
+
+
 def language_of(basename):
     if basename in LANG_OF_NAME:
         return LANG_OF_NAME[basename]
     ext = basename.rsplit(".", 1)[1] if "." in basename.lstrip(".") else ""
-    return LANG_OF_EXT.get(ext)
+    return LANG_OF_EXT.get(ext) or _additional_language(basename)
 BUILTIN = [".bzr", ".direnv", ".eggs", ".git", ".git-rewrite", ".hg", ".ipynb_checkpoints", ".mypy_cache", ".nox", ".pants.d", ".pytest_cache",
            ".pytype", ".ruff_cache", ".svn", ".tox", ".venv", ".vscode", "__pypackages__", "_build", "buck-out", "build", "dist", "node_modules",
            "venv", "test", "tests"]
@@ -59,7 +86,7 @@ def universal_paths():
 
 def file_content(path):
     lang = language_of(os.path.basename(path))
-    if lang is None:
+    if lang not in SEVEN:
         return f"plain text for {path}\n"
     spec = {"lang": lang, "items": [{"k": "func", "name": "fn", "style": "same", "body": [{"k": "simple"}]}]}
     text = canon.render(spec)[0]
